@@ -59,6 +59,9 @@ def qvec(rng, n, kind, r=2):
         return rng.choice(np.array([-120, -100, 0, 1, 100, 127]), size=n).astype(np.int8)
     if kind == 'negative':
         return -rng.integers(0, 2 * r + 1, size=n)
+    if kind == 'descending':
+        # non-increasing with repeated values (a reversal sorts it only if all values are distinct; a stable sort keeps the order inside a sector)
+        return np.sort(rng.integers(-r, r + 1, size=n))[::-1].copy()
     if kind == 'aliased':
         # distinct charges that coincide modulo 2**32 / 2**16 / 2**31 / 2**53, interleaved: composite sort keys, narrowed copies, float round trips and
         # hashes truncated to a machine word confuse them
@@ -991,3 +994,28 @@ def funnel_hermitian_mpo(rng, d, L, cplx=True):
         A = rng.normal(size=shape) + (1j * rng.normal(size=shape) if cplx else 0)
         M.A[i] = A / np.sqrt(d * shape[2])
     return mpo_sum(M, mpo_dagger(M))
+
+
+def bond_gauge_pow2(rng, T, exps=(0, 0, 20, -20, 45, -45, 60, -60)):
+    """Diagonal gauge with a LARGE DYNAMIC RANGE on the interior bonds of an MPS / MPO (in place): bond index j of bond i+1 is multiplied by 2**e_j on the
+    tensor to its left and by 2**-e_j on the tensor to its right (exact powers of two: the represented object is unchanged bit for bit, every product of
+    matching entries is the same number as before; only the basis of the bond is badly scaled, 1e+-18 between channels). Returns the largest |e_j| used."""
+    L = len(T.A)
+    big = 0
+    for i in range(L - 1):
+        if rng.random() < 0.6:
+            D = T.A[i].shape[-1]
+            e = np.array([int(x) for x in rng.choice(exps, size=D)])
+            big = max(big, int(np.abs(e).max()))
+            for arr, sgn, ax in ((T.A[i], 1, -1), (T.A[i + 1], -1, -2)):
+                a = np.asarray(arr)
+                if np.issubdtype(a.dtype, np.integer):
+                    a = a.astype(float)
+                shape = [1] * a.ndim
+                shape[ax] = D
+                f = np.ldexp(1.0, sgn * e).reshape(shape)
+                if arr is T.A[i]:
+                    T.A[i] = a * f
+                else:
+                    T.A[i + 1] = a * f
+    return big
